@@ -1,6 +1,6 @@
 (* C11: funding settles on schedule, exactly.  Statements only. *)
 From MP.Model Require Import Prelude U128 SInt Feed Vamm VammOps Token World Engine Runtime.
-From MP.Proofs Require Import Tactics EngineGuards.
+From MP.Proofs Require Import Tactics SIntFacts EngineGuards EngineArith MoreFacts.
 
 Theorem C11_too_early_fails : forall v e s o, now e < v_next_funding (vs v) -> exists er, settle_funding v e s o = Err er.
 Proof. exact settle_funding_too_early. Qed.
@@ -21,3 +21,40 @@ Theorem C11_settlement : forall v e s o v' pf,
     (now e + v_fperiod (vc v)) / ONE_HOUR * ONE_HOUR <= v_next_funding (vs v').
 Proof. exact settle_funding_spec. Qed.
 Print Assumptions C11_settlement.
+
+(* the engine side of an accepted settlement: the cumulative premium fraction advances by exactly the
+   fraction the vAMM reported; with payment = trunc(net position x fraction / D), a negative payment
+   draws |payment| from the insurance fund into the vault, a positive one sends min(payment, vault
+   balance) from the vault to the insurance fund, zero moves nothing; nothing else changes *)
+Theorem C11_engine_settlement : forall w pf vamm w' msgs,
+  pay_funding_reply w pf vamm = Ok (w', msgs) ->
+  wf0 pf -> cpf_wf (w_eng w) vamm -> 0 < e_dec (ec (w_eng w)) ->
+  (forall v, get_vamm w vamm = Ok v -> wf0 (v_total (vs v))) ->
+  toZ (cumulative_premium_fraction (w_eng w') vamm) = toZ (cumulative_premium_fraction (w_eng w) vamm) + toZ pf /\
+  wf0 (cumulative_premium_fraction (w_eng w') vamm) /\
+  (exists v, get_vamm w vamm = Ok v /\
+     msgs = funding_msgs w (Z.quot (toZ (v_total (vs v)) * toZ pf) (e_dec (ec (w_eng w))))) /\
+  w_tok w' = w_tok w /\ w_vamms w' = w_vamms w /\ w_if w' = w_if w /\ w_fp w' = w_fp w /\
+  es (w_eng w') = es (w_eng w) /\ ec (w_eng w') = ec (w_eng w) /\ e_pos (w_eng w') = e_pos (w_eng w) /\
+  vm_lrb (read_vmap (w_eng w') vamm) = vm_lrb (read_vmap (w_eng w) vamm).
+Proof. exact pay_funding_reply_spec. Qed.
+Print Assumptions C11_engine_settlement.
+
+(* a trade (increase or reduce) charges exactly the funding owed since the checkpoint - the stored margin
+   is max(0, delta - owed + old margin) - moves the checkpoint to the current cumulative fraction, and
+   afterwards nothing is owed: the same settlement cannot be charged again *)
+Theorem C11_trade_charges_once : forall w i o id w' subs tm,
+  update_position_reply w i o id = Ok (w', subs) -> e_tmp (w_eng w) = Some tm ->
+  let v := ts_vamm tm in let t := ts_trader tm in
+  let p := get_position (w_eng w) (w_env w) v t (ts_side tm) in
+  pos_wf p -> cpf_wf (w_eng w) v -> 0 < e_dec (ec (w_eng w)) ->
+  wf0 (ts_upnl tm) -> 0 <= o -> 0 <= ts_open_notional tm -> 0 < ts_leverage tm ->
+  exists p' delta, find_position (w_eng w') v t = Some p' /\
+    p_lupf p' = cumulative_premium_fraction (w_eng w) v /\
+    p_block p' = height (w_env w) /\
+    p_margin p' = Z.max 0 (delta - funding_owed w v p + p_margin p) /\
+    (id = INCREASE_ID -> delta = ts_open_notional tm * e_dec (ec (w_eng w)) / ts_leverage tm) /\
+    cumulative_premium_fraction (w_eng w') v = cumulative_premium_fraction (w_eng w) v /\
+    funding_owed w' v p' = 0.
+Proof. exact update_position_reply_funding. Qed.
+Print Assumptions C11_trade_charges_once.
